@@ -256,7 +256,9 @@ impl Session {
             crate::ui::load_debugger(&mut mem)?;
         }
         out.borrow_mut().clear();
-        Ok(Self{ slots: vec![], mem, out, stdin_reads, umbilical_high })
+        let mut sess = Self{ slots: vec![], mem, out, stdin_reads, umbilical_high };
+        sess.drain_debug_messages();
+        Ok(sess)
     }
 
     fn slot(&self, word: &str) -> Result<GcRef, String> {
@@ -366,7 +368,7 @@ fn cmd_eval(natives: &[(&'static str, NativeFn)], sess: &mut Session, text: &str
     let out = hex_bytes(&sess.out.borrow());
     sess.out.borrow_mut().clear();
     let dbg = sess.drain_debug_messages();
-    format!("{} | end={} out={} cur={} dbg={}", results.join(" "), status, out, cur, dbg)
+    format!("{} | end={} out={} cur={} dbg={}", results.join(" ;; "), status, out, cur, dbg)
 }
 
 
@@ -696,12 +698,6 @@ fn handle(natives: &[(&'static str, NativeFn)], session: &mut Option<Session>, p
             // all scalar values for which char::is_whitespace holds
             let v = (0 ..= 0x10ffffu32).filter_map(char::from_u32).filter(|c| c.is_whitespace()).map(|c| format!("{}", c as u32)).collect::<Vec<String>>();
             Ok(v.join(","))
-        },
-        "graphemes" => {
-            // graphemes <hex text>: number of extended grapheme clusters (what build_character consults)
-            use unicode_segmentation::UnicodeSegmentation;
-            let t = unhex(words.get(1).ok_or("missing text")?).ok_or("bad hex")?;
-            Ok(format!("{}", t.graphemes(true).count()))
         },
         "echo" => Ok(words[1..].join(" ")),
         _ => Err(format!("unknown request {cmd}")),
